@@ -380,7 +380,10 @@ func (inv *Invoice) validatePrecedingData(o *CorrectionOptions, cd *tax.Correcti
 		if s == nil {
 			return fmt.Errorf("missing stamp: %v", k)
 		}
-		pre.Stamps = append(pre.Stamps, s)
+		// copy the stamp so that the new document does not share it with the
+		// source envelope's header or the caller's options
+		sc := *s
+		pre.Stamps = append(pre.Stamps, &sc)
 	}
 
 	if len(cd.Types) > 0 && !o.Type.In(cd.Types...) {
